@@ -130,8 +130,13 @@ def path_ctor(ctx):
     Q.require(np is not None, 'BasePath.__normpath missing')
     npf = np._func
     nps = F.effects(npf, lambda e: e.name == 'normpath', depth=0)
+    reps = [e for e in F.effects(npf, lambda e: e.name == 'replace', depth=1)
+            if e.fn.cls is npf.cls and has_const(e.arg(0), '\\') and (
+                has_const(e.arg(1), '/') or has(e.arg(1), 'posixpath',
+                                                'sep'))]
     ok = bool(nps) and all(any("replace('\\\\', '/')" in a
-                               for a in e.arg(0)) for e in nps)
+                               for a in e.arg(0)) or (
+        bool(reps) and has_call(e.arg(0), 'replace')) for e in nps)
     ctx.ob(R, '__normpath|backslash-to-slash-first', ok, np,
            'backslashes are not converted to / before normalisation')
     ok = has_call(F.returns(npf), 'normpath')
